@@ -26,6 +26,34 @@ func c15NewPool(r *RNG) *c15Pool {
 	if r.Chance(50) {
 		p.logins = append(p.logins, []byte("guest"))
 	}
+	// near-collisions: logins that differ from another login (a pool login, guest, admin) only by case,
+	// surrounding spaces or a look-alike character — each must stay its own account at every layer
+	for i := 0; i < 1+r.Intn(2); i++ {
+		base := [][]byte{[]byte("guest"), []byte("admin"), p.logins[r.Intn(len(p.logins))]}[r.Intn(3)]
+		var v []byte
+		switch r.Intn(7) {
+		case 0:
+			v = []byte(strings.ToUpper(string(base)))
+		case 1:
+			v = []byte(strings.Title(strings.ToLower(string(base))))
+		case 2:
+			v = append(append([]byte{}, base...), ' ')
+		case 3:
+			v = append([]byte{' '}, base...)
+		case 4:
+			v = []byte(strings.Replace(string(base), "s", "\u0455", 1) + "") // Cyrillic dze for s
+			if string(v) == string(base) {
+				v = append(append([]byte{}, base...), 0xcc, 0x81) // combining acute
+			}
+		case 5:
+			v = append(append([]byte{}, base...), '.')
+		default:
+			v = []byte(strings.ToLower(string(base)))
+		}
+		if legalLogin(v) && !yamlUnsafe(v) && string(v) != "admin" && len(v) < 200 {
+			p.logins = append(p.logins, v)
+		}
+	}
 	for i := 0; i < 4; i++ {
 		p.names = append(p.names, c15GenName(r))
 	}
@@ -656,7 +684,11 @@ func c15History(c *Case, mode int) {
 			}
 		}
 		h.check(step)
+		if step%9 == 0 {
+			h.wireLogins(2)
+		}
 	}
+	h.wireLogins(4)
 	h.finish()
 	c.Dist(fmt.Sprintf("successful-changes/%d", min(h.nMut/5*5, 30)))
 	if h.nMut >= 3 {
